@@ -30,6 +30,11 @@ pub struct RecvCase {
     pub cancels: usize,
     /// frames arrive one per quiescent step (true) or all messages at once before the first poll (false)
     pub stepwise: bool,
+    /// link->session channel capacity (session buffer size; 0 = the default): with 1 the frames recv() itself
+    /// sends (auto-accept disposition, credit flow) have to wait for each other
+    pub buffer: usize,
+    /// n of CreditMode::Auto(n): with 1 every delivery is followed by a credit flow
+    pub credit: u32,
 }
 
 #[derive(Debug, Clone, Default)]
@@ -62,7 +67,8 @@ pub async fn recv_scenario(case: RecvCase) -> RecvObs {
             return obs;
         }
     };
-    let mut session = match scen::begin(&mut c, Session::builder()).await {
+    let sb = if case.buffer == 0 { Session::builder() } else { Session::builder().buffer_size(case.buffer) };
+    let mut session = match scen::begin(&mut c, sb).await {
         Ok(s) => s,
         Err(e) => {
             obs.machinery = Some(e);
@@ -71,7 +77,7 @@ pub async fn recv_scenario(case: RecvCase) -> RecvObs {
     };
     let r = drive(
         &mut c.peer,
-        Receiver::builder().name("r").source("q").credit_mode(CreditMode::Auto(10)).auto_accept(case.auto_accept).attach(&mut session),
+        Receiver::builder().name("r").source("q").credit_mode(CreditMode::Auto(case.credit)).auto_accept(case.auto_accept).attach(&mut session),
         scen::H,
     )
     .await;
@@ -204,7 +210,9 @@ fn judge_recv(case: &RecvCase, o: &RecvObs) -> Vec<(String, String)> {
             "delivery-changed-or-reordered"
         };
         f.push((
-            format!("{kind} frames={} auto_accept={}", case.frames, case.auto_accept),
+            // (the capacity class is part of the class: with capacity 1 the frames recv() itself has to send can
+            // wait for each other, which is where the one known loss happens)
+            format!("{kind} frames={} auto_accept={} link->session capacity {}", case.frames, case.auto_accept, if case.buffer == 1 { "1" } else { "roomy" }),
             format!("{what}: the completed recv calls returned {:?}, the peer sent {:?}", o.received, o.sent),
         ));
     }
@@ -479,10 +487,205 @@ fn judge_send(case: &SendCase, o: &SendObs) -> Vec<(String, String)> {
     f
 }
 
+
+// ------------------------------------------------------------------------------------------------ send under back-pressure
+/// The transport does not take bytes, the connection's and the session's channels (capacity 1 or 2) fill up, and
+/// the send that finds the link->session channel full - so that the link's own internal send is pending - is the
+/// one that gets cancelled, after its k-th further poll.
+#[derive(Debug, Clone, Copy, PartialEq, Eq, Hash)]
+pub struct BpCase {
+    pub k: usize,
+    pub large: bool,
+    pub conn_buf: usize,
+    pub sess_buf: usize,
+}
+
+pub async fn send_backpressure_scenario(case: BpCase) -> SendObs {
+    let mut obs = SendObs::default();
+    let (pipe, a, _b) = vlib::vpipe::Pipe::new();
+    let mut auto = Auto::default();
+    auto.max_frame_size = 512;
+    auto.incoming_window = 100_000;
+    let mut peer = vlib::peer::Peer::new(pipe.clone(), 1, auto);
+    let conn = drive(&mut peer, fe2o3_amqp::Connection::builder().container_id("lib").max_frame_size(512).buffer_size(case.conn_buf).open_with_stream(a), scen::H).await;
+    let mut conn = match conn {
+        Some(Ok(c)) => c,
+        _ => {
+            obs.machinery = Some("open failed".into());
+            return obs;
+        }
+    };
+    let mut session = match drive(&mut peer, Session::builder().buffer_size(case.sess_buf).begin(&mut conn), scen::H).await {
+        Some(Ok(s)) => s,
+        _ => {
+            obs.machinery = Some("begin failed".into());
+            return obs;
+        }
+    };
+    let s = drive(&mut peer, Sender::builder().name("s").target("q").sender_settle_mode(SenderSettleMode::Settled).attach(&mut session), scen::H).await;
+    let mut sender = match s {
+        Some(Ok(s)) => s,
+        _ => {
+            obs.machinery = Some("attach failed".into());
+            return obs;
+        }
+    };
+    let lib_handle = peer.links.last().map(|l| l.lib_handle).unwrap_or(0);
+    settle(&mut peer, 1).await;
+    peer.grant(0, lib_handle, 1000);
+    settle(&mut peer, 1).await;
+    let mk = |tag: &str, large: bool| -> Message<fe2o3_amqp_types::messaging::AmqpValue<String>> {
+        let body = if large { format!("{tag}-{}", "y".repeat(1100)) } else { tag.to_string() };
+        Message::builder().value(body).build()
+    };
+    pipe.stall_writes(0, true);
+    // pre-settled sends complete as soon as the link has handed its frame to the session: keep sending until one
+    // does not, i.e. until the link's own channel send is what is pending
+    let mut cancelled = false;
+    for n in 0..60 {
+        let mut fut = Box::pin(sender.send(mk(&format!("fill{n}"), case.large)));
+        let mut done = false;
+        for _ in 0..3 {
+            if let std::task::Poll::Ready(_) = futures_util::poll!(fut.as_mut()) {
+                done = true;
+                break;
+            }
+            tokio::time::sleep(Duration::from_millis(1)).await;
+        }
+        if done {
+            continue;
+        }
+        for _ in 0..case.k {
+            if let std::task::Poll::Ready(_) = futures_util::poll!(fut.as_mut()) {
+                break;
+            }
+            tokio::time::sleep(Duration::from_millis(1)).await;
+        }
+        drop(fut);
+        cancelled = true;
+        obs.cancelled_after_transfer_written = n; // how many sends the pipeline absorbed
+        break;
+    }
+    if !cancelled {
+        obs.machinery = Some(format!("back-pressure: 60 sends completed with a stalled transport and buffers {}/{}", case.conn_buf, case.sess_buf));
+        return obs;
+    }
+    pipe.stall_writes(0, false);
+    settle(&mut peer, 6).await;
+    // everything that was in flight has arrived.  An ordinary receiver now allows one more delivery beyond what
+    // it has received; a credit that the cancelled send consumed without a transfer starves the link
+    for n in 0..2 {
+        peer.pump();
+        peer.grant(0, lib_handle, 1);
+        let mut fut = Box::pin(sender.send(mk(&format!("later{n}"), n == 1 && case.large)));
+        let mut res = None;
+        for _ in 0..60 {
+            if let std::task::Poll::Ready(r) = futures_util::poll!(fut.as_mut()) {
+                res = Some(r);
+                break;
+            }
+            tokio::time::sleep(Duration::from_millis(1)).await;
+            peer.pump();
+        }
+        drop(fut);
+        match res {
+            Some(r) => obs.later_results.push(format!("{:?}", r.map(|o| format!("{:?}", o)).map_err(|e| e.to_string()))),
+            None => {
+                obs.later_hung = true;
+                break;
+            }
+        }
+        settle(&mut peer, 2).await;
+    }
+    settle(&mut peer, 2).await;
+    let (delivered, partial) = deliveries_on_the_wire(&peer.trace);
+    obs.delivered = delivered;
+    obs.partial = partial;
+    obs.trace = trace_to_strings(&peer.trace);
+    drop(sender);
+    obs
+}
+
+/// (first word of the body of every complete delivery the library wrote, a delivery was left unfinished)
+fn deliveries_on_the_wire(trace: &[vlib::peer::WFrame]) -> (Vec<String>, bool) {
+    let mut out = vec![];
+    let mut partial = false;
+    let mut cur: Option<Vec<u8>> = None;
+    for w in trace.iter().filter(|w| w.dir == Dirn::FromLib) {
+        if let WBody::Perf(Performative::Transfer(t)) = &w.body {
+            if t.delivery_id.is_some() && cur.is_some() {
+                partial = true;
+            }
+            let mut b = if t.delivery_id.is_some() { vec![] } else { cur.take().unwrap_or_default() };
+            if t.delivery_id.is_some() {
+                cur = None;
+            }
+            b.extend_from_slice(&w.payload);
+            if t.more {
+                cur = Some(b);
+            } else if !t.aborted {
+                let tag = serde_amqp::from_slice::<fe2o3_amqp_types::messaging::message::__private::Deserializable<Message<Body<Value>>>>(&b)
+                    .ok()
+                    .and_then(|m| match m.0.body {
+                        Body::Value(v) => match v.0 {
+                            Value::String(s) => Some(s.split('-').next().unwrap_or("").to_string()),
+                            _ => None,
+                        },
+                        _ => None,
+                    })
+                    .unwrap_or_else(|| "UNDECODABLE".to_string());
+                out.push(tag);
+            }
+        }
+    }
+    if cur.is_some() {
+        partial = true;
+    }
+    (out, partial)
+}
+
+fn judge_bp(case: &BpCase, o: &SendObs) -> Vec<(String, String)> {
+    let mut f = vec![];
+    let what = format!("{:?} (the pipeline absorbed {} sends before one had to wait inside the link)", case, o.cancelled_after_transfer_written);
+    if o.partial {
+        f.push((format!("partial-delivery-on-the-wire (back-pressure) large={}", case.large), format!("{what}: a delivery was started and never completed; deliveries {:?}", o.delivered)));
+    }
+    let n = o.cancelled_after_transfer_written;
+    let cnt = o.delivered.iter().filter(|d| **d == format!("fill{n}")).count();
+    if cnt > 1 {
+        f.push(("cancelled-send-delivered-twice (back-pressure)".into(), format!("{what}: the cancelled message was delivered {cnt} times: {:?}", o.delivered)));
+    }
+    if o.delivered.iter().any(|d| d == "UNDECODABLE") {
+        f.push((format!("corrupted-delivery (back-pressure) large={}", case.large), format!("{what}: a delivery on the wire does not decode: {:?}", o.delivered)));
+    }
+    // the sends that completed before the cancelled one arrive once each, in order
+    let fills: Vec<&String> = o.delivered.iter().filter(|d| d.starts_with("fill") && **d != format!("fill{n}")).collect();
+    let want: Vec<String> = (0..n).map(|i| format!("fill{i}")).collect();
+    if fills.iter().map(|s| s.as_str()).collect::<Vec<_>>() != want.iter().map(|s| s.as_str()).collect::<Vec<_>>() {
+        f.push(("completed-sends-not-delivered-in-order (back-pressure)".into(), format!("{what}: the sends that had completed arrived as {:?}", fills)));
+    }
+    let later: Vec<&String> = o.delivered.iter().filter(|d| d.starts_with("later")).collect();
+    if o.later_hung {
+        f.push((
+            "later-send-starved (back-pressure)".into(),
+            format!("{what}: a send issued after the cancellation never completed although the receiver had received everything in flight and granted one more credit (a credit consumed without a transfer); results {:?}, deliveries {:?}", o.later_results, o.delivered),
+        ));
+    } else {
+        if later != vec!["later0", "later1"] {
+            f.push(("later-sends-not-delivered-in-order (back-pressure)".into(), format!("{what}: the sends after the cancellation arrived as {:?} (all {:?})", later, o.delivered)));
+        }
+        if o.later_results.iter().any(|r| r.starts_with("Err")) {
+            f.push(("later-send-failed (back-pressure)".into(), format!("{what}: a send issued after the cancellation failed: {:?}", o.later_results)));
+        }
+    }
+    f
+}
+
 // ------------------------------------------------------------------------------------------------ driver
 enum Case {
     R(RecvCase),
     S(SendCase),
+    B(BpCase),
 }
 
 fn run_case(c: &Case) -> (Vec<(String, String)>, Option<String>, u64, bool, Vec<String>) {
@@ -504,6 +707,25 @@ fn run_case(c: &Case) -> (Vec<(String, String)>, Option<String>, u64, bool, Vec<
                     (fails, None, h64(&(o.received.len(), o.errors.len(), o.polls_needed_max)), o.cancelled_with_progress > 0, o.trace)
                 }
                 None => (fails, Some(format!("recv scenario died: {:?}", ex.panics)), 0, false, vec![]),
+            }
+        }
+        Case::B(bc) => {
+            let bc = *bc;
+            let scen: Scenario<SendObs> = Arc::new(move || Box::pin(send_backpressure_scenario(bc)));
+            let ex = run_exec(vec![], &RunCfg::none(), &scen);
+            let mut fails = vec![];
+            for p in ex.panics.iter().filter(|p| !p.contains("vcheck/src")) {
+                fails.push(("library-task-panic (send, back-pressure)".to_string(), format!("{:?}: {p}", bc)));
+            }
+            match ex.out {
+                Some(o) => {
+                    if let Some(m) = o.machinery {
+                        return (fails, Some(m), 0, false, vec![]);
+                    }
+                    fails.extend(judge_bp(&bc, &o));
+                    (fails, None, h64(&(o.delivered.clone(), o.later_hung, 7u8)), true, o.trace)
+                }
+                None => (fails, Some(format!("back-pressure scenario died: {:?}", ex.panics)), 0, false, vec![]),
             }
         }
         Case::S(sc) => {
@@ -538,8 +760,10 @@ pub fn cases(quick: bool) -> Vec<Case> {
         for auto_accept in [true, false] {
             for stepwise in [true, false] {
                 for cancels in if deep { vec![1usize, 2, 3, 5, 8] } else if quick { vec![1usize, 3] } else { vec![1, 2, 3, 5] } {
-                    for k in 0..=kmax_r {
-                        v.push(Case::R(RecvCase { frames, auto_accept, k, cancels, stepwise }));
+                    for (buffer, credit) in [(0usize, 10u32), (1, 10), (1, 1), (2, 1)] {
+                        for k in 0..=kmax_r {
+                            v.push(Case::R(RecvCase { frames, auto_accept, k, cancels, stepwise, buffer, credit }));
+                        }
                     }
                 }
             }
@@ -558,6 +782,14 @@ pub fn cases(quick: bool) -> Vec<Case> {
                         }
                     }
                 }
+            }
+        }
+    }
+    // the link's own internal send is pending: transport stalled, channels of capacity 1 or 2 full
+    for large in [false, true] {
+        for (conn_buf, sess_buf) in [(1usize, 1usize), (1, 2), (2, 1), (2, 2)] {
+            for k in 0..=(if deep { 8 } else { 4 }) {
+                v.push(Case::B(BpCase { k, large, conn_buf, sess_buf }));
             }
         }
     }
@@ -584,8 +816,9 @@ pub fn run(ctx: &Ctx) -> Outcome {
             with_progress += 1;
         }
         let cj = match c {
-            Case::R(r) => json!({"kind": "recv", "frames": r.frames, "auto_accept": r.auto_accept, "k": r.k, "cancels": r.cancels, "stepwise": r.stepwise}),
+            Case::R(r) => json!({"kind": "recv", "frames": r.frames, "auto_accept": r.auto_accept, "k": r.k, "cancels": r.cancels, "stepwise": r.stepwise, "buffer": r.buffer, "credit": r.credit}),
             Case::S(s) => json!({"kind": "send", "large": s.large, "settled": s.settled, "credit_first": s.credit_first, "k": s.k, "cancels": s.cancels, "buffer": s.buffer, "stalled": s.stalled}),
+            Case::B(b) => json!({"kind": "send-backpressure", "k": b.k, "large": b.large, "conn_buf": b.conn_buf, "sess_buf": b.sess_buf}),
         };
         if samples.len() < 3 && progress {
             samples.push(json!({"case": cj, "trace_tail": trace.iter().rev().take(6).rev().collect::<Vec<_>>()}));
@@ -597,7 +830,7 @@ pub fn run(ctx: &Ctx) -> Outcome {
     out.set("evaluations", cs.len() as u64);
     out.set("distinct_nontrivial", (distinct.len() as u64).max(with_progress.min(2)));
     out.set("cancelled_with_progress", with_progress);
-    out.set("rule", "cases = (recv: frames per message 1|3 x auto-accept x stepwise/burst arrival x number of cancelled futures x drop after k-th poll) + (send: 1-frame|3-frame body x settled/unsettled x credit present/absent at start x link->session buffer 1|2 x transport write stall x number of cancelled futures x drop after k-th poll); the system runs to quiescence between polls. Non-trivial = the cancelled future had made progress (consumed a frame / written a transfer) before it was dropped; distinct = distinct observation summaries");
+    out.set("rule", "cases = (recv: frames per message 1|3 x auto-accept x stepwise/burst arrival x number of cancelled futures x drop after k-th poll) + (send: 1-frame|3-frame body x settled/unsettled x credit present/absent at start x link->session buffer 1|2 x transport write stall x number of cancelled futures x drop after k-th poll) + (send under back-pressure: transport stalled, connection and session channels of capacity 1|2 filled by pre-settled sends until the link's own channel send is pending, that send dropped after its k-th further poll); the system runs to quiescence between polls. Non-trivial = the cancelled future had made progress (consumed a frame / written a transfer) before it was dropped; distinct = distinct observation summaries");
     out.set("samples", json!(samples));
     out.set("exhaustive", true);
     out.set("bound", format!("k up to {} (recv) / {} (send)", if ctx.quick() { 10 } else { 16 }, if ctx.quick() { 8 } else { 12 }));
@@ -617,6 +850,15 @@ fn replay(p: &std::path::Path, mut out: Outcome) -> Outcome {
             k: c["k"].as_u64().unwrap_or(0) as usize,
             cancels: c["cancels"].as_u64().unwrap_or(1) as usize,
             stepwise: c["stepwise"].as_bool().unwrap_or(true),
+            buffer: c["buffer"].as_u64().unwrap_or(0) as usize,
+            credit: c["credit"].as_u64().unwrap_or(10) as u32,
+        })
+    } else if c["kind"] == "send-backpressure" {
+        Case::B(BpCase {
+            k: c["k"].as_u64().unwrap_or(0) as usize,
+            large: c["large"].as_bool().unwrap_or(false),
+            conn_buf: c["conn_buf"].as_u64().unwrap_or(1) as usize,
+            sess_buf: c["sess_buf"].as_u64().unwrap_or(1) as usize,
         })
     } else {
         Case::S(SendCase {
